@@ -32,6 +32,8 @@ def sym_version(it, world, name, has_extra):
     ex = it.ctx.fresh(name + '_extra', smt.KEY) if has_extra else None
     v = VO.V(ln, arr, ex)
     it.ctx.assume(v.wf())       # requires: well-formed input (established by __init__, see init tasks)
+    jj = z3.Int('j!small')
+    it.ctx.small_hints += [ln <= 3, z3.ForAll([jj], z3.Implies(z3.And(jj >= 0, jj < ln), z3.Select(arr, jj) <= 9))]
     obj = SObj(version_class(world), {'version_nums': SSeq(ln, arr, z3.IntSort(), mutable=False, kind='tuple'),
                                       'version_extra': SKey(ex) if has_extra else None})
     return obj, v
